@@ -451,7 +451,20 @@ fn momentum_run(scn: &W4Scn, mirrored: bool, stats: &mut RunStats) -> Result<Vec
         // move the quotes for the next step
         if step + 1 < cfg.path.len() {
             let (off, half) = cfg.path[step + 1];
-            if (off, half) != cfg.path[step] {
+            if (off, half) != cfg.path[step] && cfg.quote_by_modify && cur.is_some() {
+                // re-price the two resting quotes in place (modify instructions only: nothing is placed or cancelled on the
+                // asset by the harness in this step)
+                let (ib, ik) = cur.unwrap();
+                let (b, k) = quote(off, half);
+                if !mirrored {
+                    w.modify(a, ib, Some(b), Some(QUOTE_VOL));
+                    w.modify(a, ik, Some(k), Some(QUOTE_VOL));
+                } else {
+                    w.modify(a, ik, Some(k), Some(QUOTE_VOL));
+                    w.modify(a, ib, Some(b), Some(QUOTE_VOL));
+                }
+                stats.probe("quotes_moved_by_modify");
+            } else if (off, half) != cfg.path[step] {
                 if let Some((ib, ik)) = cur {
                     if !mirrored {
                         w.cancel(a, ib);
